@@ -361,7 +361,7 @@ fn gen_case(dna: &[u8]) -> Case {
 	};
 	// occupancy/type pattern: any subset incl. none, any of the 3 types
 	let mask = d.below(16);
-	let mut ports = Vec::new();
+	let mut ports: Vec<PortPlan> = Vec::new();
 	for p in 0..4u8 {
 		if mask & (1 << p) != 0 {
 			let b = d.u8();
@@ -369,11 +369,7 @@ fn gen_case(dna: &[u8]) -> Case {
 		}
 	}
 	let mut start = gen_start(&mut d, ver, &ports, Some(len));
-	if ports.is_empty() {
-		// keep the file parsable: zero occupied ports is outside the replay domain, force P1
-		ports.push(PortPlan { port: 0, ics: false, ptype: 0 });
-		start[gs::PLAYERS + gs::P_TYPE] = 0;
-	}
+	// (the all-empty occupancy pattern is part of the quantifier: it must list zero players)
 	// per-player mapped bytes over their full range
 	for p in &ports {
 		let o = gs::PLAYERS + p.port as usize * gs::PLAYER_LEN;
